@@ -9,7 +9,8 @@ WASI_DEFS = ["HAS_UNISTD=1", "HAS_SYSUIO=1", "HAS_SYSTIME=1", "HAS_SYSRESOURCE=1
 
 def entries(src):
     return re.findall(r"^void (h_\w+)\(void\)", open(src).read(), re.M) + \
-        ["h_dead_" + m for m in re.findall(r"^DEAD\(\w+, (\w+),", open(src).read(), re.M)]
+        ["h_dead_" + m for m in re.findall(r"^DEAD\(\w+, (\w+),", open(src).read(), re.M)] + \
+        ["h_dead_nopath_" + m for m in re.findall(r"^NOPATH\(\w+, (\w+),", open(src).read(), re.M)]
 
 
 def wasi_job(ctx, name, src, entry, funcs, defines=(), **kw):
